@@ -227,28 +227,33 @@ class Ptr:
 NULL = Ptr(0, 0)
 class PInt:
     """integer that is a linear combination of block base addresses plus a constant (LLVM loop idioms compute e.g. -16 - p + q on ptrtoint values);
-    collapses to a plain int as soon as all base coefficients cancel"""
+    collapses to a plain int / pointer as soon as the base coefficients allow.  The constant part may be a symbolic 64-bit expression (pointers at symbolic offsets)."""
     __slots__ = ('t', 'o')
     def __init__(s, t, o): s.t = t; s.o = o
     @staticmethod
     def of(x):
         if isinstance(x, PInt): return x
         if isinstance(x, Ptr):
-            if isBV(x.o): raise Unsupported('pointer arithmetic on symbolic offset')
-            return PInt({x.b: 1}, x.o) if x.b != 0 else PInt({}, x.o)
+            o = x.o.e if isBV(x.o) else x.o
+            return PInt({x.b: 1}, o) if x.b != 0 else PInt({}, o)
         if isinstance(x, int): return PInt({}, x)
+        if isBV(x) and x.w == 64: return PInt({}, x.e)
         raise Unsupported(f'pointer arithmetic with {type(x).__name__}')
     def norm(s, w=64):
         t = {b: c for b, c in s.t.items() if c != 0}
-        if not t: return s.o & ((1 << w) - 1)
-        if len(t) == 1 and list(t.values()) == [1]: return Ptr(list(t)[0], s.o)
+        o = s.o if isinstance(s.o, int) else mkbv(s.o, 64)
+        if not t: return (o & ((1 << w) - 1)) if isinstance(o, int) else o
+        if len(t) == 1 and list(t.values()) == [1]: return Ptr(list(t)[0], o)
         return PInt(t, s.o)
+def _po(v): return v if not isinstance(v, int) else z3.BitVecVal(v & ((1 << 64) - 1), 64)
 def pint_op(op, x, y, w):
     a = PInt.of(x if not isinstance(x, int) else sgn(x, w)); b = PInt.of(y if not isinstance(y, int) else sgn(y, w))
     sg = 1 if op == 'add' else -1
     t = dict(a.t)
     for k, c in b.t.items(): t[k] = t.get(k, 0) + sg * c
-    return PInt(t, a.o + sg * b.o).norm(w)
+    if isinstance(a.o, int) and isinstance(b.o, int): o = a.o + sg * b.o
+    else: o = (_po(a.o) + _po(b.o)) if sg == 1 else (_po(a.o) - _po(b.o))
+    return PInt(t, o).norm(w)
 class Bits:  # integer view of a symbolic double (type punning through i64 loads)
     __slots__ = ('f',)
     def __init__(s, f): s.f = f
@@ -624,9 +629,13 @@ class Machine:
             if not isinstance(x, int): raise Unsupported('int -> x86_fp80 of a symbolic value')
             return LD(sgn(x, ft.w)) if op == 'sitofp' else LD(x)
         if op in ('sitofp', 'uitofp'):
-            if isBV(x): return F(op, cond_key(x.e))
+            f32 = isinstance(tt, FloatTy) and tt.k == 'float'
+            if isBV(x):
+                if f32: raise Unsupported('symbolic int -> float (binary32 rounding is not modelled)')
+                return F(op, cond_key(x.e))
             if isinstance(x, SB): return F('ite', cond_key(x.e), (-1.0 if op == 'sitofp' else 1.0), 0.0)
-            return float(sgn(x, ft.w)) if op == 'sitofp' else float(x)
+            v = float(sgn(x, ft.w)) if op == 'sitofp' else float(x)
+            return struct.unpack('<f', struct.pack('<f', v))[0] if f32 else v       # int -> float rounds to binary32
         if op in ('fptosi', 'fptoui') and isinstance(x, LD):
             return int(x) & ((1 << tt.w) - 1)
         if op in ('fptosi', 'fptoui'):
@@ -877,8 +886,8 @@ class Machine:
 
     def ibin(s, op, t, x, y, flags):
         w = t.w; m = (1 << w) - 1
-        if isinstance(x, PInt) or isinstance(y, PInt) or ((isinstance(x, Ptr) or isinstance(y, Ptr)) and op in ('add', 'sub') and not isBV(x) and not isBV(y)
-                                                           and not (isinstance(x, Ptr) and isBV(x.o)) and not (isinstance(y, Ptr) and isBV(y.o))):
+        if isinstance(x, PInt) or isinstance(y, PInt) or ((isinstance(x, Ptr) or isinstance(y, Ptr)) and op in ('add', 'sub') and w == 64
+                                                           and not (isBV(x) and x.w != 64) and not (isBV(y) and y.w != 64)):
             if op in ('add', 'sub'): return pint_op(op, x, y, w)
             raise Unsupported(f'int op {op} on pointer-derived integer')
         if isinstance(x, Ptr) or isinstance(y, Ptr):
@@ -1003,7 +1012,10 @@ def _del(m, p, *a):
     if p.b == 0: return None
     b = m.blocks[p.b]
     if not b.alive: m.ub_now('double-free', "double free")
-    if b.kind != 'heap' or p.o != 0: m.ub_now('invalid-free', "invalid free")
+    if isBV(p.o):      # offset is an expression (begin pointer recomputed from a symbolic size): it must be 0 on every value of the path
+        if b.kind != 'heap': m.ub_now('invalid-free', "invalid free")
+        m.ub_sym(p.o.e != 0, 'invalid-free', 'free of a pointer that may not be the start of its block')
+    elif b.kind != 'heap' or p.o != 0: m.ub_now('invalid-free', "invalid free")
     b.alive = False
 def _memcpy(m, d, s, n, *a): m.memcpy(d, s, n)
 def _memmove(m, d, s, n, *a):
@@ -1035,6 +1047,9 @@ def _m2(name):
     fn = getattr(libm, name)
     def h(m, x, y): return F('call', name, x, y) if (isF(x) or isF(y)) else fn(x, y)
     return h
+def _frexp(m, x, pe):
+    if isF(x): raise Unsupported('frexp of a symbolic value')
+    fr, e = math.frexp(x); m.store(IT(32), e & 0xffffffff, pe); return fr
 def _fmuladd(m, a, b, c): return fbin('fadd', fbin('fmul', a, b), c)
 def _assume(m, c):
     if isBV(c): c = SB(c.e == 1)
@@ -1042,8 +1057,10 @@ def _assume(m, c):
         m.ub_sym(z3.Not(c.e), 'assume', 'llvm.assume condition can be false (DSPLIB_ASSUME violated)'); return
     if not c: m.ub_now('assume', "llvm.assume(false): DSPLIB_ASSUME violated")
 def _guard_acquire(m, p):
-    v = m.load(IT(8), p); return 0 if v else 1
-def _guard_release(m, p): m.store(IT(8), 1, p)
+    v = m.load(IT(8), p)
+    if v: return 0
+    m.locks_held += 1; return 1      # initialisation of a function-local static runs under the guard's lock (thread-safe statics): traced like a lock-protected region
+def _guard_release(m, p): m.store(IT(8), 1, p); m.locks_held = max(m.locks_held - 1, 0)
 def _minmax(w, signed, ismax):
     def h(m, a, b):
         if isBV(a) or isBV(b):
@@ -1156,6 +1173,7 @@ EXT = {
     'llvm.log.f64': _m1('log'), 'llvm.log2.f64': _m1('log2'), 'llvm.log10.f64': _m1('log10'), 'llvm.exp2.f64': _m1('exp2'),
     'nextafter': (lambda m, x, y: math.nextafter(x, y)),
     'ldexp': (lambda m, x, e: math.ldexp(x, sgn(e, 32))),
+    'frexp': _frexp, 'frexpf': _frexp,
     'llvm.floor.f64': _m1('floor'), 'llvm.ceil.f64': _m1('ceil'), 'llvm.round.f64': _m1('round'), 'llvm.trunc.f64': _m1('trunc'),
     'llvm.rint.f64': _m1('rint'), 'llvm.nearbyint.f64': _m1('nearbyint'), 'floor': _m1('floor'), 'ceil': _m1('ceil'), 'round': _m1('round'),
     'llvm.fabs.f64': _fabs, 'fabs': _fabs, 'llvm.copysign.f64': _copysign,
